@@ -145,6 +145,14 @@ pub struct Volume {
 
 /// A well-formed volume: 24-byte header + `n` bzip2-compressed LDM records of message streams.
 pub fn build_volume(tape: &mut Tape, max_records: usize, opts: &StreamOpts) -> Volume {
+    build_volume_inner(tape, max_records, opts, false).0
+}
+
+/// Like `build_volume`; with `inner_faults` some records carry a payload that was damaged or cut
+/// *before* compression, so the container (size prefix, bzip2 stream) is intact while the message
+/// stream inside is not. Returns the notes of what was done.
+pub fn build_volume_inner(tape: &mut Tape, max_records: usize, opts: &StreamOpts, inner_faults: bool) -> (Volume, Vec<String>) {
+    let mut notes = Vec::new();
     let n = match tape.weighted(&[5, 2, 1]) {
         0 => 1 + tape.draw(max_records.min(3) as u64) as usize,
         1 => tape.draw(max_records as u64 + 1) as usize,
@@ -158,13 +166,32 @@ pub fn build_volume(tape: &mut Tape, max_records: usize, opts: &StreamOpts) -> V
         tape.draw(86_400_000) as u32,
         "KDMX",
     );
-    for _ in 0..n {
-        let s = build_stream(tape, opts);
+    for ri in 0..n {
+        let mut s = build_stream(tape, opts);
         v.messages += s.msgs.len();
         v.radials += s.msgs.iter().filter(|m| m.mtype == 31).count();
+        if inner_faults && !s.bytes.is_empty() {
+            match tape.weighted(&[3, 2, 2]) {
+                0 => {}
+                1 => {
+                    // the uncompressed payload stops inside a message (prefer the last one)
+                    let last = s.msgs.last().map(|m| m.off).unwrap_or(0);
+                    let t = if tape.draw(2) == 0 { last + tape.draw((s.bytes.len() - last) as u64) as usize } else { tape.draw(s.bytes.len() as u64) as usize };
+                    s.bytes.truncate(t);
+                    notes.push(format!("record {}: payload cut at {} before compression", ri, t));
+                }
+                _ => {
+                    let k = 1 + tape.draw(3);
+                    for _ in 0..k {
+                        let d = crate::streamsim::damage(&mut s.bytes, tape);
+                        notes.push(format!("record {}: payload {}@{}+{} before compression", ri, d.kind, d.at, d.len));
+                    }
+                }
+            }
+        }
         let rec = icd::ldm_record(&s.bytes, tape.draw(4) == 3);
         v.records.push((v.bytes.len(), rec.len()));
         v.bytes.extend_from_slice(&rec);
     }
-    v
+    (v, notes)
 }
